@@ -199,6 +199,35 @@ func DeepInstrs(fn *ssa.Function) []ssa.Instruction {
 	return out
 }
 
+// InlineRoots returns the functions into which f is interpreted: f itself when it keeps its identity, otherwise the
+// (transitive) static callers that are not themselves interpreted inline.
+func InlineRoots(f *ssa.Function) []*ssa.Function {
+	if !Inlinable(f) || curProg == nil {
+		return []*ssa.Function{f}
+	}
+	seen := map[*ssa.Function]bool{}
+	var out []*ssa.Function
+	var up func(g *ssa.Function, depth int)
+	up = func(g *ssa.Function, depth int) {
+		if seen[g] || depth > maxInlineDepth+1 {
+			return
+		}
+		seen[g] = true
+		if !Inlinable(g) {
+			out = append(out, g)
+			return
+		}
+		if n := curProg.CG.Nodes[g]; n != nil {
+			for _, e := range n.In {
+				up(e.Caller.Func, depth+1)
+			}
+		}
+	}
+	up(f, 0)
+	sort.Slice(out, func(i, j int) bool { return out[i].String() < out[j].String() })
+	return out
+}
+
 // deepContains: target lives in helper g or in a helper inlined into g.
 func deepContains(g *ssa.Function, target ssa.Instruction) bool {
 	for _, in := range DeepInstrs(g) {
@@ -469,6 +498,11 @@ func rebuildTag(t *Term, args []*Term, tag string) *Term {
 	}
 	n := *t
 	n.Args = args
+	if t.Op == "call" && (t.Aux == "builtin len" || t.Aux == "builtin cap") && len(args) == 1 && args[0] != nil && (strings.HasPrefix(t.K, "len(") || strings.HasPrefix(t.K, "cap(")) {
+		// len/cap of a value: a pure function of that value, keyed structurally
+		n.K = t.K[:4] + args[0].K + ")"
+		return &n
+	}
 	k := n.K
 	for i, a := range t.Args {
 		if a != nil && i < len(args) && args[i] != nil && a.K != args[i].K && a.K != "" {
@@ -648,3 +682,9 @@ func computeNonNilGlobals(p *Prog) {
 		}
 	}
 }
+
+// KnownNonNil: the value is never nil whatever the path (fresh errors, allocations, never-reassigned error variables).
+func KnownNonNil(t *Term) bool { return knownNonNil(t) }
+
+// NonNilGlobal: g only ever holds a fresh error/allocation.
+func NonNilGlobal(g *ssa.Global) bool { return nonNilGlobals[g] }
